@@ -80,7 +80,7 @@ def classify(oc, data, cdc):
 
 def run(ctx):
     ctx.rule = ('all byte strings of length <= 2 (quick) / <= 3 (thorough) over 18 structural octets, and mutants (bit flip, insert, delete, '
-                'tag/length rewrite, truncation, duplication) of valid encodings; primitive contents over 14 significant octets and a sweep of all 256 first contents octets of BIT STRING/OID/REAL; REAL character forms over 36 texts (incl. nan, inf, underscores, blanks); BER, CER and DER decoders, one-shot and streaming; 17 guiding '
+                'tag/length rewrite, truncation, duplication) of valid encodings; primitive contents over 14 significant octets and a sweep of all 256 first contents octets of BIT STRING/OID/REAL; constructed strings holding one or two of 21 odd segments; REAL character forms over 36 texts (incl. nan, inf, underscores, blanks); BER, CER and DER decoders, one-shot and streaming; 17 guiding '
                 'types and none; outcome must be a value object + remainder or a PyAsn1Error; reads bounded by 8*len+16; non-trivial = length >= 2')
     search_only = getattr(ctx, 'search_only', False)
     specs = [(sd, U.build_type(sd) if sd is not None else None, U.coq_ty(sd) if sd is not None else None) for sd in SPECS]
@@ -122,6 +122,19 @@ def run(ctx):
                         continue
                     ct = bytes([a, b2] + ([c3] if c3 is not None else []))
                     inputs.append(('str', bytes([tg, len(ct)]) + ct, sd))
+    # constructed strings whose segments are not what they should be: each string type in constructed form (definite and
+    # indefinite), holding one or two "segments" drawn from a set of odd TLVs
+    ODD = [b'', b'\x04\x00', b'\x04\x02AB', b'\x03\x02\x00A', b'\x0c\x01A', b'\x02\x01\x05', b'\x05\x00', b'\x84\x02AB', b'\xa4\x02AB',
+           b'\xa4\x04\x04\x02AB', b'\xa4\x80\x04\x02AB\x00\x00', b'\xa4\x80AB', b'\x24\x04\x04\x02AB', b'\x24\x80\x04\x01A\x00\x00',
+           b'\x64\x02AB', b'\xe4\x00', b'\x30\x00', b'\x00\x00', b'\x04\x81\x01A', b'\x1f\x04\x01A', b'\xbf\x1f\x02AB']
+    STRS = {0x24: ('octs',), 0x23: ('bits',), 0x2c: ('str', 'UTF8String'), 0x36: ('str', 'IA5String')}
+    for tg, sd in STRS.items():
+        pairs = [(a,) for a in ODD] + [(a, b2) for a in ODD for b2 in ODD if ctx.tier != 'quick' or ctx.rng.random() < 0.25]
+        for segs in pairs:
+            body = b''.join(segs)
+            if len(body) < 128:
+                inputs.append(('str', bytes([tg, len(body)]) + body, sd))
+            inputs.append(('str', bytes([tg, 0x80]) + body + b'\x00\x00', sd))
     # REAL in character form (ISO 6093 NR1-3): text the number parser of the host language may accept beyond the standard's syntax
     TEXTS = [b'1', b'-1', b'+1', b'1.', b'1.5', b'.5', b'1e5', b'1E-5', b'1.e', b'e5', b'', b' 1', b'1 ', b'1\n', b'1_2', b'0x10', b'nan', b'NaN',
              b'-nan', b'inf', b'-inf', b'Infinity', b'1e999', b'-1e999', b'1e-999', b'1,5', b'--1', b'1e', b'\xd9\xa1', b'\x00', b'1\x00',
